@@ -270,6 +270,17 @@ class FnTranslator:
                     "".join(self.param_types.get(S(e[1][1]), "").split()).startswith("implInto<Option<"):
                 # `x.into()` of a parameter declared `impl Into<Option<T>>`: an Option stays, anything else becomes Some
                 return "(ECall \"into_option\" [%s])" % self.expr(e[1])
+            if self.interior and name == "map" and len(e) == 4 and e[3][0] == "closure" and e[1][0] == "mcall" and \
+                    S(e[1][2]) in ("into_iter", "iter") and len(e[1]) == 3:
+                return self.array_map(e[1][1], e[3])
+            if self.interior and name == "find" and len(e) == 4 and e[3][0] == "closure" and e[1][0] == "mcall" and \
+                    S(e[1][2]) in ("into_iter", "iter") and len(e[1]) == 3:
+                return self.array_find(e[1][1], e[3])
+            if self.interior and name == "unwrap_or_else" and len(e) == 4 and e[3][0] == "closure" and len(e[3][1]) == 1:
+                return "(EMatch %s [(PCon \"Some\" [PVar \"unwrap_v\"], EVar \"unwrap_v\"); (PCon \"None\" [], %s)])" % (
+                    self.expr(e[1]), self.expr(e[3][2]))
+            if self.interior and name in ("is_some", "is_none") and len(e) == 3:
+                return "(ECall %s [%s])" % (cs(name), self.expr(e[1]))
             if name in ("map", "map_err") and self.interior and len(e) == 4 and e[3][0] in ("path", "closure") and \
                     not (name == "map_err" and e[3][0] == "path" and len(e[3]) == 2):
                 return self.hof_map(e[1], e[3], name == "map_err")
@@ -337,6 +348,14 @@ class FnTranslator:
             # `e?`: the definition of the operator (the error is converted with From::from and returned)
             return ("(EMatch %s [(PCon \"Ok\" [PVar \"try_v\"], EVar \"try_v\"); "
                     "(PCon \"Err\" [PVar \"try_e\"], EReturn (ECon \"Err\" [ECon \"From::from\" [EVar \"try_e\"]]))])" % self.try_operand(e[1]))
+        if h == "quote" and self.interior:
+            # a code template: a symbolic value made of its text and the values of the variables it splices
+            text = S(e[1])
+            holes = []
+            for mh in re.finditer(r"#\s*(\w+)", text):
+                if mh.group(1) not in holes:
+                    holes.append(mh.group(1))
+            return "(ECon \"quote\" %s)" % clist(["(EConst (VStr %s))" % cs(text)] + ["(EVar %s)" % cs(x) for x in holes])
         if h == "format" and self.interior:
             return "(ECon \"format\" %s)" % clist(["(EConst (VStr %s))" % cs(S(e[1]))] + [self.expr(a) for a in e[2:]])
         if h == "while":
@@ -386,14 +405,43 @@ class FnTranslator:
                 self.calls.add(name)
                 app = "ECall %s [EVar %s]" % (cs(name), cs(v))
         else:
-            if len(f[1]) != 2 or f[1][1][0] != "pident":
+            if len(f[1]) != 2 or f[1][1][0] not in ("pident", "pwild"):
                 raise TranslateError("closure with other than one plain parameter")
-            app = "EBlock [SLet (PVar %s) (EVar %s); STail %s]" % (cs(S(f[1][1][1])), cs(v), self.expr(f[2]))
+            pv = "PWild" if f[1][1][0] == "pwild" else "PVar %s" % cs(S(f[1][1][1]))
+            app = "EBlock [SLet (%s) (EVar %s); STail %s]" % (pv, cs(v), self.expr(f[2]))
         keep = lambda c: "(PCon %s [PVar %s], ECon %s [EVar %s])" % (cs(c), cs(v), cs(c), cs(v))
         conv = lambda c: "(PCon %s [PVar %s], ECon %s [%s])" % (cs(c), cs(v), cs(c), app)
         none = "(PCon \"None\" [], ECon \"None\" [])"
         arms = [keep("Ok"), conv("Err")] if on_err else [conv("Ok"), keep("Err"), conv("Some"), none]
         return "(EMatch %s %s)" % (self.expr(recv), clist(arms))
+
+    def closure1(self, clo):
+        if len(clo[1]) != 2 or clo[1][1][0] != "pident":
+            raise TranslateError("closure with other than one plain parameter")
+        return S(clo[1][1][1]), self.expr(clo[2])
+
+    def array_map(self, src, clo):
+        """`xs.into_iter().map(|v| BODY)`: the list of BODY for the elements in order (the closure is pure)"""
+        v, body = self.closure1(clo)
+        self.hof_no = getattr(self, "hof_no", 0) + 1
+        n = self.hof_no
+        return ("(EBlock [SLet (PVar \"map_src%d\") %s; SLet (PVar \"map_acc%d\") (EArr []); "
+                "SExpr (EFor \"map_i%d\" (EConst (VNat 0)) (ECall \"len\" [EVar \"map_src%d\"]) "
+                "(EBlock [SLet (PVar %s) (EIndex (EVar \"map_src%d\") (EVar \"map_i%d\")); "
+                "STail (EAssign \"map_acc%d\" [] (ECall \"push\" [EVar \"map_acc%d\"; %s]))])); STail (EVar \"map_acc%d\")])"
+                % (n, self.expr(src), n, n, n, cs(v), n, n, n, n, body, n))
+
+    def array_find(self, src, clo):
+        """`xs.iter().find(|v| COND)`: Some of the first element satisfying COND, else None"""
+        v, cond = self.closure1(clo)
+        self.hof_no = getattr(self, "hof_no", 0) + 1
+        n = self.hof_no
+        return ("(EBlock [SLet (PVar \"find_src%d\") %s; SLet (PVar \"find_res%d\") (ECon \"None\" []); "
+                "SExpr (EFor \"find_i%d\" (EConst (VNat 0)) (ECall \"len\" [EVar \"find_src%d\"]) "
+                "(EBlock [STail (EIfLet (PCon \"None\" []) (EVar \"find_res%d\") "
+                "(EBlock [SLet (PVar %s) (EIndex (EVar \"find_src%d\") (EVar \"find_i%d\")); "
+                "STail (EIf %s (EAssign \"find_res%d\" [] (ECon \"Some\" [EVar %s])) (EConst VUnit))]) (EConst VUnit))])); "
+                "STail (EVar \"find_res%d\")])" % (n, self.expr(src), n, n, n, n, cs(v), n, n, cond, n, cs(v), n))
 
     def try_operand(self, e):
         """operand of `?`; the idiom `xs.into_iter().map(|v| BODY).collect::<StdResult<_>>()` is given its meaning: BODY is
@@ -499,7 +547,7 @@ def fetch_ast(path):
 
 
 BUILTINS = {"len", "is_empty", "konst::cmp_str", "konst::eq_str", "into", "to_string", "unwrap_or_default_string", "Binary::default",
-            "anyhow::is", "anyhow::downcast", "unwrap", "push", "Response::new", "add_submessages", "add_events", "add_attributes", "into_option"}
+            "anyhow::is", "anyhow::downcast", "unwrap", "push", "Response::new", "add_submessages", "add_events", "add_attributes", "into_option", "is_some", "is_none"}
 
 
 def translate_utils():
@@ -674,6 +722,35 @@ def translate_mtmethods():
                                           "extern::query_wasm_smart", "extern::wasm_sudo"})
 
 
+def translate_macro_logic():
+    """Decision logic of the MACRO itself (sylvia-derive): `EntryPoints::emit` - which entry points a contract gets - and
+    `get_entry_point` (the look-up of an override). Templates (`quote!`) are symbolic values (their text and the values
+    they splice); building the message variants of the source and emitting one default entry point are `extern::..`."""
+    def setup(t):
+        t.interior = True
+        t.externals = {"as_variants", "get_only_variant", "emit_default_entry_point"}
+        t.own_methods = {"get_entry_point": "get_entry_point"}
+    FOREIGN.update({"MsgVariants::new": "call:extern::MsgVariants::new"})
+    out = []
+    kv = fetch_ast(os.path.join(common.REPO, "sylvia-derive", "src", "entry_points.rs"))
+    out += translate_methods("entry_points.rs", {"EntryPoints": ["emit"]}, setup=setup, kv=kv,
+                             extra_known={"get_entry_point", "extern::MsgVariants::new", "extern::as_variants", "extern::get_only_variant",
+                                          "extern::emit_default_entry_point", "is_some", "is_none", "push"})
+    kv2 = fetch_ast(os.path.join(common.REPO, "sylvia-derive", "src", "parser", "attributes", "override_entry_point.rs"))
+    found = None
+    for k, v in kv2:
+        if k == "method" and v.startswith("&Vec<OverrideEntryPoint> as FilteredOverrideEntryPoints @@ "):
+            sx = parse_sx(v.partition(" @@ ")[2])
+            if S(sx[1]) == "get_entry_point":
+                found, cl = translate_fn(sx, "FilteredOverrideEntryPoints", {}, "get_entry_point", setup=setup)
+                bad = cl - BUILTINS - {"push"}
+                if bad:
+                    raise TranslateError("get_entry_point calls %s" % sorted(bad))
+    if not found:
+        raise TranslateError("override_entry_point.rs: get_entry_point of &Vec<OverrideEntryPoint> not found")
+    return out + [found]
+
+
 RESP_WANTED = {"SubMsg": ["into_msg"], "Response": ["into_response"]}
 
 
@@ -741,6 +818,11 @@ def generate():
             raise
         mtmeth, _ = [], errors.append("generated proxy methods (contract/mt.rs templates): %s" % e)
 
+    try:
+        macro = translate_macro_logic()
+    except TranslateError as e:
+        macro, _ = [], errors.append("macro logic (entry_points.rs, override_entry_point.rs): %s" % e)
+
     def prog(fns):
         return "  [ " + ";\n    ".join(fns) + " ]." if fns else "  []."
     text = "\n".join([
@@ -762,6 +844,8 @@ def generate():
         "Definition mtgen_fns : program :=", prog(mtgen), "",
         "(* GENERATED code, for every contract and method: the exec / query / sudo / migrate proxy methods (one symbolic argument) *)",
         "Definition mtmeth_fns : program :=", prog(mtmeth), "",
+        "(* sylvia-derive: decision logic of the macro - EntryPoints::emit (which entry points exist) and get_entry_point *)",
+        "Definition macro_fns : program :=", prog(macro), "",
         "(* sylvia/src/into_response.rs: IntoMsg / IntoResponse; `enabled_features` = the cargo features switched on *)",
         "Definition resp_program (enabled_features : list string) : program :=", prog(resp), ""])
     return text, errors
